@@ -1,5 +1,6 @@
 """Executing generated programs: external functions with a call log, decision
 tapes, fuel; depth-first enumeration of the tapes a reference run consumes."""
+import copy
 import sys
 
 
@@ -77,6 +78,9 @@ def run_callable(make, args, tape, maxlen, merge_name_errors=False):
 
     try:
         fn = make(env.globals())
+        # every run gets its own copy of the arguments: a program may mutate
+        # a list it was handed (y = b; y += a)
+        args = copy.deepcopy(args)
         sys.settrace(tr)
         try:
             v = fn(*args)
